@@ -13,7 +13,7 @@
      - the error category of each single top-level defect: C04_defect_*.
    Completeness for non-canonical *composite* encodings (entry padding, entry
    order, unknown ids) is stated with the table properties (C08). *)
-From Nop Require Import Spec Sim EncSpec ScalarRT DecSpec Readers Lang.
+From Nop Require Import Spec Sim EncSpec ScalarRT DecSpec Readers Lang Sound.
 Local Open Scope N_scope.
 
 Theorem C04_prefix_sweep : forall s p, In s all_scalars -> p < 256 ->
@@ -108,3 +108,10 @@ Theorem C04_refuted_variant_index_i64 :
   /\ scalar_match sI64 P_I64 = true.
 Proof. split; reflexivity. Qed.
 Print Assumptions C04_refuted_variant_index_i64.
+
+(* soundness of acceptance, value part: what Read yields on ANY input is a value of the
+   destination type (shape at every depth), not merely on canonical encodings *)
+Theorem C04_accepted_value_is_of_the_type : forall t (bs : bytes) v rest, all_bytes bs = true ->
+  dec t lr_ops bs = Ok v rest -> has_shape t v = true /\ all_bytes rest = true.
+Proof. exact dec_shape. Qed.
+Print Assumptions C04_accepted_value_is_of_the_type.
